@@ -106,6 +106,10 @@ def check(ctx):
     import c02
     # ---- C13.a ----
     n = core.adopt(ctx, c02, lambda o: o["rule"] == "C02.b" or (o["rule"] == "C02.a" and "run-uses-taken-callback" in o["key"]), "C13.a")
+    # 'all of its runs, including runs postponed by recursion': a postponed run is replayed, and only the root of a tree
+    # (counter == 0, reset only there, incremented once per run) may discard what is left (shared with C02.c)
+    n += core.adopt(ctx, c02, lambda o: o["rule"] == "C02.c" and any(k in o["key"] for k in ("root-resets-counter", "one-counter-increment", "discard",
+                    "run-path-always-replays", "counter-increment", "replay-present", "drop-only-after-run")), "C13.a")
     ctx.floor("C13.a", n, 3, "shared callback-conservation obligations")
     try:
         st = prog.adt_by_name("SystemCommandStorage")
